@@ -120,9 +120,40 @@ Definition e_conc (v : val) : val :=
   | _ => verr
   end.
 
+(* handle() with a wrapped handler: [variant; data; sched; mode; k] - the handler reads
+   (one recv of) k bytes, then returns (mode 0) or raises exception number mode *)
+Definition mk_handler (mode : N) (k : nat) : handler :=
+  fun _ s =>
+    let s' := match k with O => s | S _ => snd (recv_into s k) end in
+    (if mode =? 0 then HoReturn else HoRaise mode, s').
+Definition vend (e : hend) : val :=
+  match e with
+  | HReturned => VL [VN 0]
+  | HPropagated n => VL [VN 1; VN n]
+  | HParserEscape x => VL [VN 2; VN (exc_code x)]
+  | HOutOfFuel => VL [VN 3]
+  end.
+Definition e_handle (v : val) : val :=
+  match v with
+  | VL [VN variant; VB data; VL sched; VN mode; VN k] =>
+      let s := mk_sock data (map get_n sched) in
+      let p := match variant with
+               | 0 => p_handle_v1 P6 N6
+               | 1 => p_handle_v2 N6
+               | _ => p_handle_auto P6 N6
+               end in
+      let len := List.length data in
+      let '(e, s', calls) := run_h p (mk_handler mode (N.to_nat k)) s in
+      VL [vend e;
+          VL (map (fun c => VL [vaddr (fst c); VN (N.of_nat (len - List.length (s_data (snd c))))]) calls);
+          VN (N.of_nat (len - List.length (s_data s')))]
+  | _ => verr
+  end.
+
 Definition entries : list entry :=
   [("c18_v1"%string, e_v1); ("c18_v2"%string, e_v2); ("c18_auto"%string, e_auto);
    ("c18_line"%string, e_line);
    ("c18_pton4"%string, e_pton4); ("c18_pton6"%string, e_pton6);
    ("c18_ntop4"%string, e_ntop4); ("c18_ntop6"%string, e_ntop6);
-   ("c18_enc1"%string, e_enc1); ("c18_enc2"%string, e_enc2); ("c18_conc"%string, e_conc)].
+   ("c18_enc1"%string, e_enc1); ("c18_enc2"%string, e_enc2); ("c18_conc"%string, e_conc);
+   ("c18_handle"%string, e_handle)].
